@@ -642,7 +642,7 @@ def _gen_tool(rng, name):
     if _maybe(rng, 0.3):
         return rng.choice(["bin", "usr/bin", "."])
     t = {"path": rng.choice(["bin", "usr/bin", "."])}
-    if _maybe(rng, 0.5):
+    if _maybe(rng, 0.7):
         t["libs"] = rng.sample(["lib", "usr/lib", "lib64"], rng.randrange(1, 3))
     if _maybe(rng, 0.3):
         t["environment"] = {"TE_" + name.upper(): rng.choice(["1", "x"])}
@@ -714,7 +714,7 @@ def gen_project(rng, size=8):
                 d["checkoutAssert"] = [{"file": "s0/x.txt", "digestSHA1": "da39a3ee5e6b4b0d3255bfef95601890afd80709"}]
                 if _maybe(rng, 0.5):
                     d["checkoutAssert"][0]["start"] = rng.randrange(1, 4)
-            if _maybe(rng, 0.15):
+            if _maybe(rng, 0.25):
                 d["fingerprintIf"] = rng.choice([True, True, "${VD:-}", False])
                 d["fingerprintScript"] = rng.choice(["echo host", "uname -m"])
                 if _maybe(rng, 0.3):
@@ -724,15 +724,20 @@ def gen_project(rng, size=8):
             # dependencies
             deps, avail_tools = [], set()
             if pkgnames:
-                for name in rng.sample(pkgnames, min(len(pkgnames), rng.randrange(0, 4))):
-                    if _maybe(rng, 0.45):
+                for name in rng.sample(pkgnames, min(len(pkgnames), rng.randrange(0 if i < size - 1 else 2, 5))):
+                    if _maybe(rng, 0.3):
                         deps.append(name)
                         continue
                     dep = {"name": name}
                     use = rng.choice([["result", "deps"], ["result"], ["result", "tools"], ["tools"], ["result", "deps", "environment"],
-                                      ["result", "tools", "environment", "sandbox"], ["sandbox"], ["result", "deps", "tools", "sandbox"]])
+                                      ["result", "tools", "environment", "sandbox"], ["sandbox"], ["result", "deps", "tools", "sandbox"],
+                                      ["result", "deps", "tools"], ["tools", "sandbox"], ["result", "tools", "environment"]])
+                    if provides[name]["sandbox"] and _maybe(rng, 0.7) and "sandbox" not in use:
+                        use = use + ["sandbox"]
+                    if provides[name]["tools"] and _maybe(rng, 0.5) and "tools" not in use:
+                        use = use + ["tools"]
                     dep["use"] = use
-                    if _maybe(rng, 0.3):
+                    if _maybe(rng, 0.45):
                         dep["forward"] = True
                     if _maybe(rng, 0.25):
                         dep["environment"] = _gen_env(rng, VARS + WEAK_ONLY, 1)
@@ -752,18 +757,18 @@ def gen_project(rng, size=8):
                     d["provideDeps"] = [n0]
             tool_pool = sorted(avail_tools) if strict_tools else TOOLS
             for stage in STAGES:
-                if tool_pool and _maybe(rng, 0.3):
-                    d[stage + "Tools"] = rng.sample(tool_pool, rng.randrange(1, min(len(tool_pool), 2) + 1))
-                if tool_pool and _maybe(rng, 0.15):
-                    d[stage + "ToolsWeak"] = rng.sample(tool_pool, 1)
+                if tool_pool and _maybe(rng, 0.45):
+                    d[stage + "Tools"] = rng.sample(tool_pool, rng.randrange(1, min(len(tool_pool), 3) + 1))
+                if tool_pool and _maybe(rng, 0.25):
+                    d[stage + "ToolsWeak"] = rng.sample(tool_pool, rng.randrange(1, min(len(tool_pool), 2) + 1))
             prov = {"tools": set(), "sandbox": False}
-            if _maybe(rng, 0.3):
-                names = rng.sample(TOOLS, rng.randrange(1, 3))
+            if _maybe(rng, 0.5):
+                names = rng.sample(TOOLS, rng.randrange(1, 4))
                 d["provideTools"] = {n: _gen_tool(rng, n) for n in names}
                 prov["tools"] = set(names)
             if _maybe(rng, 0.2):
                 d["provideVars"] = _gen_env(rng, VARS, rng.randrange(1, 3))
-            if _maybe(rng, 0.15):
+            if _maybe(rng, 0.35):
                 d["provideSandbox"] = {"paths": rng.choice([["/bin"], ["/bin", "/usr/bin"]])}
                 if _maybe(rng, 0.5):
                     d["provideSandbox"]["environment"] = _gen_env(rng, SBVARS + VARS, 1)
